@@ -72,7 +72,7 @@ Terminal == {"Done", "Raised"}
 
 NoTrial == [from |-> NoPt, rhoUsed |-> NoRho, lambUsed |-> -1, dt |-> -1, kind |-> "none",
             pt |-> NoPt, lambNext |-> -1, accepted |-> FALSE, cause |-> "none"]
-InnerInit == [k |-> 0, fault |-> FALSE, dl |-> FALSE, nev |-> 0, ls |-> 0, rd |-> 0]
+InnerInit == [k |-> 0, fault |-> FALSE, dl |-> FALSE, nev |-> 0, ls |-> 0, rd |-> 0, nh |-> 0, nf |-> 0]
 PostInit == [n |-> FALSE, w |-> FALSE, p |-> FALSE]
 NoPen == [nextRho |-> NoRho, ok |-> FALSE, ynorm |-> 0, entry |-> <<0, 0>>]
 ClkInit == [t |-> 0, site |-> "none", expired |-> FALSE, fresh |-> FALSE, reads |-> 0]
@@ -156,7 +156,8 @@ Eval(r, e) ==
   /\ bad' = [bad EXCEPT ![r] = IF e.xid = NoPt THEN @
                                 ELSE IF e.ok THEN @ \ {<<e.xid, e.comp>>} ELSE @ \cup {<<e.xid, e.comp>>}]
   /\ inner' = [inner EXCEPT ![r] = [@ EXCEPT !.fault = @ \/ (~e.ok /\ e.phase \in FaultPhases),
-                                            !.nev = IF Mode = "mc" THEN @ + 1 ELSE @]]
+                                            !.nev = IF Mode = "mc" THEN @ + 1 ELSE @,
+                                            !.nh = IF e.comp = "lag_hess" /\ e.phase \in {"trial", "linesearch"} THEN @ + 1 ELSE @]]
   /\ Step
   /\ UNCHANGED <<pc, cfg, algVars, nnot, post, disp, clk, dlx, path, ptime>>
 
@@ -266,7 +267,8 @@ Lin(r, e) ==
         <<"P:C17", "lin.finite", e.raised = "none" => e.finite>>
      >>)
   /\ inner' = [inner EXCEPT ![r] = [@ EXCEPT !.fault = @ \/ (e.raised # "none" /\ e.phase = "trial"),
-                                            !.ls = IF Mode = "mc" THEN @ + 1 ELSE @]]
+                                            !.ls = IF Mode = "mc" THEN @ + 1 ELSE @,
+                                            !.nf = IF e.op = "factor" /\ e.phase = "trial" THEN @ + 1 ELSE @]]
   /\ Step
   /\ UNCHANGED <<pc, cfg, algVars, nnot, post, disp, clk, dlx, path, ptime, bad, orc>>
 
@@ -283,6 +285,18 @@ InnerCountOK(r, e) ==
     [] cfg[r].ctl = "DistRatio" -> inner[r].k \in 1..2
     [] OTHER -> inner[r].k = 1
 
+(* When the Newton variants refresh derivative (Hessian evaluation) and factorisation within one trial:  *)
+(* Simplified: once per trial; Full: at every Newton step; ActiveSet: derivative once, factorisation at  *)
+(* every active-set change; Globalized: at every step (plus the Hessian of the merit-function gradient). *)
+RefreshOK(r, e) ==
+  Mode = "mc" \/ e.kind = "fail" \/ inner[r].fault \/ inner[r].k = 0 \/
+  LET k == inner[r].k  nh == inner[r].nh  nf == inner[r].nf  n == cfg[r].newton IN
+  CASE n = "Simplified" -> nh = 1 /\ nf = 1
+    [] n = "Full" -> nh = k /\ nf = k
+    [] n = "ActiveSet" -> nh = 1 /\ nf >= 1 /\ nf <= k
+    [] n = "Globalized" -> nh >= k /\ nh <= 2 * k /\ nf = k
+    [] OTHER -> TRUE
+
 (* StepController.compute_step returns.                                     *)
 TrialEnd(r, e) ==
   LET t == trial[r]
@@ -297,6 +311,7 @@ TrialEnd(r, e) ==
   /\ Cl("M", "fail.needs.fault", e.kind = "fail" => (inner[r].fault \/ inner[r].dl))
   /\ Cl("M", "lamb.next", LambNextOK(r, t, e))
   /\ Cl("M", "inner.count", InnerCountOK(r, e))
+  /\ Cl("M", "newton.refresh", RefreshOK(r, e))
   /\ Cl(TwinTag(r), "twin.trial", ~byDeadline => MemoOK(q, a))
   /\ PS(<<
         <<"P:C15", "fail.keepsPoint", e.kind = "fail" => e.pt = t.from>>,
